@@ -83,7 +83,7 @@ class NDNApp:
         if typ == LpTypeNumber.LP_PACKET:
             try:
                 nack_reason, fragment = parse_lp_packet(data, with_tl=True)
-            except (DecodeError, TypeError, ValueError, struct.error):
+            except (DecodeError, TypeError, ValueError, struct.error, IndexError):
                 self.logger.warning('Unable to decode received packet')
                 return
             data = fragment
@@ -101,7 +101,7 @@ class NDNApp:
         if nack_reason is not None:
             try:
                 name, _, _, _ = parse_interest(data, with_tl=True)
-            except (DecodeError, TypeError, ValueError, struct.error):
+            except (DecodeError, TypeError, ValueError, struct.error, IndexError):
                 self.logger.warning('Unable to decode the fragment of LpPacket')
                 return
             if self.logger.isEnabledFor(logging.DEBUG):
@@ -111,7 +111,7 @@ class NDNApp:
             if typ == TypeNumber.INTEREST:
                 try:
                     name, param, app_param, sig = parse_interest(data, with_tl=True)
-                except (DecodeError, TypeError, ValueError, struct.error):
+                except (DecodeError, TypeError, ValueError, struct.error, IndexError):
                     self.logger.warning('Unable to decode received packet')
                     return
                 if self.logger.isEnabledFor(logging.DEBUG):
@@ -120,7 +120,7 @@ class NDNApp:
             elif typ == TypeNumber.DATA:
                 try:
                     name, meta_info, content, sig = parse_data(data, with_tl=True)
-                except (DecodeError, TypeError, ValueError, struct.error):
+                except (DecodeError, TypeError, ValueError, struct.error, IndexError):
                     self.logger.warning('Unable to decode received packet')
                     return
                 if self.logger.isEnabledFor(logging.DEBUG):
